@@ -18,7 +18,8 @@ VERDICT_PATTERNS = [
     r'assertion failed', r'possible arithmetic (under|over)flow', r'possible division by zero',
     r'possible bit shift', r'decreases not satisfied', r'could not prove termination',
     r'loop invariant', r'cannot show invariant', r'failed precondition', r'unreachable',
-    r'possible truncation', r'refinement', r'recommendation not met',
+    r'possible truncation', r'refinement', r'recommendation not met', r'unable to prove post-?condition of closure',
+    r'unable to prove pre-?condition',
 ]
 UNDECIDED_PATTERNS = [r'rlimit', r'Resource limit', r'timed? ?out', r'solver .*(crash|unknown)']
 
@@ -155,6 +156,9 @@ def run_unit(template, rlimit=None, seed=None, do_twins=True):
         clause = lines[line - 1].strip() if 0 < line <= len(lines) else ''
         # secondary span (e.g. failing call site / return point)
         sec = [s for s in d.get('spans', []) if not s.get('is_primary')]
+        # a secondary span may point into vstd (e.g. the `requires` of Option::unwrap): keep only spans of the generated file
+        here = prim[0].get('file_name') if prim else None
+        sec = [s for s in sec if s.get('file_name') == here and 0 < s['line_start'] <= len(lines)]
         at = lines[sec[0]['line_start'] - 1].strip() if sec else ''
         # the function that failed is the one containing the *body* location when present
         body_fn = fn_at(tab, sec[0]['line_start']) if sec else fn
